@@ -11,7 +11,7 @@ from concurrent.futures import ThreadPoolExecutor
 from . import core, ptq, session, sessrules, gated, omen
 
 
-def mc_stage(tier):
+def mc_stage(tier, pid='C12'):
     mod = os.path.join(core.SPEC, 'MC_Session.tla')
     out = {'configs': [], 'states': 0, 'transitions': 0}
     for name in ('MC_Session_A.cfg', 'MC_Session_B.cfg'):
@@ -19,6 +19,13 @@ def mc_stage(tier):
         out['configs'].append({'cfg': name, 'states': r.distinct, 'transitions': r.generated, 'action_coverage': r.coverage()})
         out['states'] += r.distinct
         out['transitions'] += r.generated
+    if pid == 'C15':
+        # the generator model with the SaveAndResume action (pickle cursors + parse tree, fresh memo)
+        cfg2 = os.path.join(core.SPEC, 'MC_OmenEnum_%s.cfg' % tier)
+        r2 = core.tlc_must_pass(os.path.join(core.SPEC, 'MC_OmenEnum.tla'), cfg2, 'OmenEnum ' + tier, timeout=6000)
+        out['configs'].append({'cfg': os.path.basename(cfg2), 'states': r2.distinct, 'transitions': r2.generated})
+        out['states'] += r2.distinct
+        out['transitions'] += r2.generated
     return out
 
 
@@ -372,7 +379,7 @@ def main(pid, tier, seed):
     t0 = time.time()
     rng = random.Random(seed)
     verdict = core.Verdict(pid)
-    mc = mc_stage(tier)
+    mc = mc_stage(tier, pid)
     work = core.scratch('sess')
     traces, meta = [], {}
     otraces = []
